@@ -45,7 +45,12 @@ TouchOnly(c) == LET E == UNION {Segs(EdgeRecs(val[n])) : n \in Bases(c)}
                     Vin == UNION {{e[1], e[2]} : e \in E}
                 IN /\ \A e \in E : \A f \in E : ~ProperCross(e, f) /\ ~CollinearOverlap(e, f)
                    /\ \A v \in Vin : \A e \in E : OnSeg(v, e) => (v = e[1] \/ v = e[2])
-ExactCall(c) == (\A n \in Bases(c) : Octi(val[n])) \/ TouchOnly(c)
+\* `big`: coordinates beyond 2^12 (up to 2^30) - only arithmetic-free laws are evaluated;
+\* `touch`: the generator's claim (trusted like validity) that the two operands of the family
+\* meet in common vertices only
+BigCall(c) == meta[c.x].big \/ meta[c.y].big
+ClaimedTouch(c) == meta[c.x].touch /\ meta[c.y].touch
+ExactCall(c) == IF BigCall(c) THEN ClaimedTouch(c) ELSE ((\A n \in Bases(c) : Octi(val[n])) \/ TouchOnly(c))
 Depth1(c) == meta[c.x].expr[1] = "b" /\ meta[c.y].expr[1] = "b"
 Cls(n) == IF meta[n].rel = "rewrite" THEN meta[n].of ELSE n
 ExprOf(c) == <<"o", c.op, meta[c.x].expr, meta[c.y].expr>>
@@ -116,6 +121,14 @@ RegionOK(c, extra) == RegionMatches(c.mp, ExprOf(c), [n \in BaseNames(ExprOf(c))
 \* C02: the rings are grouped into a valid polygon set
 C02_PolygonSetValid(c) ==
   Trivial(c) \/ PolygonSetValid(c.mp, Segs(EdgesOfName(c.x)) \cup Segs(EdgesOfName(c.y)))
+
+\* C01 without arithmetic, for operands that meet in common vertices only (presented
+\* counter-clockwise): the result is the obvious list of rings
+C01_TouchOnlyObvious(c) ==
+  ClaimedTouch(c) =>
+    CASE c.op = "int" -> IsEmptyMp(c.mp)
+      [] c.op = "diff" -> CanonMp(c.mp, TRUE) = CanonMp(val[c.x], TRUE)
+      [] OTHER -> CanonMp(c.mp, TRUE) = CanonMp(val[c.x] \o val[c.y], TRUE)
 
 \* C12 (first half): the operands are bit-for-bit what they were before the call
 C12_OperandsUntouched(c) == c.xd[1] = c.xd[2] /\ c.yd[1] = c.yd[2]
@@ -201,28 +214,29 @@ Violated(c) ==
       pair(L(_, _)) == \A k \in 1..Len(log) : L(c, log[k])
       v03 == IF "C03" \in Laws /\ un /\ ~C03_Returns(c) THEN {"C03"} ELSE {}
       v12 == IF "C12" \in Laws /\ (~C12_OperandsUntouched(c) \/ ~pair(C12_Deterministic)) THEN {"C12"} ELSE {}
-      c04 == C04_RingsFromInputs(c)
-      v04 == IF "C04" \in Laws /\ un /\ ok /\ ~c04 THEN {"C04"} ELSE {}
+      big == BigCall(c)
+      c04 == ~big /\ C04_RingsFromInputs(c)
+      v04 == IF "C04" \in Laws /\ un /\ ok /\ ~big /\ ~c04 THEN {"C04"} ELSE {}
       \* Region laws: when C04 holds the result's edges lie on input edges and the arrangement of
       \* the inputs decides them; otherwise the result's own edges refine the arrangement, provided
       \* every meeting point is still integral - if not, the law is UNDECIDED for this call (never
       \* silently passed: the step prints it, the C04 check reports the cause)
       resE == Segs(EdgeRecs(c.mp))
       allE == UNION {Segs(EdgeRecs(val[n])) : n \in Bases(c)} \cup resE
-      wantGeo == ok /\ un /\ Laws \cap {"C01", "C11", "C02"} # {}
+      wantGeo == ok /\ un /\ ~big /\ Laws \cap {"C01", "C11", "C02"} # {}
       decid == c04 \/ AllIntegral(allE)
       geo == wantGeo /\ decid
       extra == IF c04 THEN {} ELSE resE
       und == IF wantGeo /\ ~decid THEN {"UNDECIDED"} ELSE {}
-      v01 == IF "C01" \in Laws /\ geo /\ Depth1(c) /\ ~RegionOK(c, extra) THEN {"C01"} ELSE {}
+      v01 == IF "C01" \in Laws /\ ((geo /\ Depth1(c) /\ ~RegionOK(c, extra)) \/ (ok /\ un /\ big /\ ~C01_TouchOnlyObvious(c))) THEN {"C01"} ELSE {}
       v11 == IF "C11" \in Laws /\ geo /\ ~Depth1(c) /\ ~RegionOK(c, extra) THEN {"C11"} ELSE {}
       v02 == IF "C02" \in Laws /\ geo /\ ~C02_PolygonSetValid(c) THEN {"C02"} ELSE {}
-      v06 == IF "C06" \in Laws /\ ok /\ un /\ ~(C06_Self(c) /\ C06_Empty(c) /\ C06_DisjointBoxes(c) /\ pair(C06_Commutes)) THEN {"C06"} ELSE {}
+      v06 == IF "C06" \in Laws /\ ok /\ un /\ ~((big \/ (C06_Self(c) /\ C06_Empty(c))) /\ C06_DisjointBoxes(c) /\ pair(C06_Commutes)) THEN {"C06"} ELSE {}
       v07 == IF "C07" \in Laws /\ ~pair(C07_RepresentationInvariant) THEN {"C07"} ELSE {}
-      v08 == IF "C08" \in Laws /\ ~pair(C08_TransformCommutes) THEN {"C08"} ELSE {}
-      v09 == IF "C09" \in Laws /\ ~pair(C09_FarPartLocal) THEN {"C09"} ELSE {}
+      v08 == IF "C08" \in Laws /\ ~big /\ ~pair(C08_TransformCommutes) THEN {"C08"} ELSE {}
+      v09 == IF "C09" \in Laws /\ ~big /\ ~pair(C09_FarPartLocal) THEN {"C09"} ELSE {}
       v10 == IF "C10" \in Laws /\ ~pair(C10_F32AgreesF64) THEN {"C10"} ELSE {}
-      v05 == IF "C05" \in Laws /\ ~C05_Partition(c, lg) THEN {"C05"} ELSE {}
+      v05 == IF "C05" \in Laws /\ ~big /\ ~C05_Partition(c, lg) THEN {"C05"} ELSE {}
   IN und \cup v03 \cup v12 \cup v04 \cup v01 \cup v11 \cup v02 \cup v06 \cup v07 \cup v08 \cup v09 \cup v10 \cup v05
 
 \* ------------------------------------------------------------------- actions
@@ -247,7 +261,8 @@ Call(c) ==
   /\ c.x \in DOMAIN val /\ c.y \in DOMAIN val /\ c.res \notin DOMAIN val
   /\ bad' = Violated(c)
   /\ val' = Ext(val, c.res, c.mp)
-  /\ meta' = Ext(meta, c.res, [rel |-> "result", of |-> "", frame |-> meta[c.x].frame, expr |-> ExprOf(c)])
+  /\ meta' = Ext(meta, c.res, [rel |-> "result", of |-> "", frame |-> meta[c.x].frame, expr |-> ExprOf(c),
+                                big |-> meta[c.x].big \/ meta[c.y].big, touch |-> FALSE])
   /\ log' = Append(log, c)
 
 BInit == val = <<>> /\ meta = <<>> /\ log = <<>> /\ bad = {}
